@@ -154,6 +154,12 @@ func TestC05Sort(t *testing.T) {
 			for i := range c.Vs {
 				c.Vs[i] = genVal(t, "v")
 			}
+			if rapid.IntRange(0, 5).Draw(t, "big") == 0 {
+				c.Big = rapid.SampledFrom([]int{50, 130, 254, 255, 256, 257, 300, 511, 512, 513, 700, 1100}).Draw(t, "bigN")
+			}
+			if rapid.IntRange(0, 5).Draw(t, "spare") == 0 {
+				c.Spare = rapid.SampledFrom([]int{1, 62, 254, 1000, 4000}).Draw(t, "spareN")
+			}
 		}
 		return c
 	}, runSort)
